@@ -106,11 +106,23 @@ func VH_C12_Break() {
 func VH_C12_CreateOnBreak() {
 	te := NewTableEngine(NewTableEngineOptions(), WithGameBackend(&vhBackend{})).(*tableEngine)
 	lv := verifrt.IntRange("level", -1, 3)
-	t, err := te.CreateTable(TableSetting{TableID: "T", Meta: TableMeta{TableMaxSeatCount: verifrt.Cfg("M"), TableMinPlayerCount: 2, Rule: CompetitionRule_Default, Mode: CompetitionMode_CT},
-		Blind: TableBlindState{Level: lv, Ante: 0, Dealer: 0, SB: 10, BB: 20}})
+	// every mode, with or without players seated by the creation itself (tournament tables
+	// are created with their players when tables are split or merged — also during a break)
+	mode := vhPick("create.mode", []string{CompetitionMode_CT, CompetitionMode_MTT, CompetitionMode_Cash})
+	jps := []JoinPlayer{}
+	jn := verifrt.IntRange("create.jn", 0, 2)
+	for i := 0; i < 2; i++ {
+		if i < jn {
+			jps = append(jps, JoinPlayer{PlayerID: vhNewIDs[i], RedeemChips: 100, Seat: i})
+		}
+	}
+	t, err := te.CreateTable(TableSetting{TableID: "T", Meta: TableMeta{TableMaxSeatCount: verifrt.Cfg("M"), TableMinPlayerCount: 2, Rule: CompetitionRule_Default, Mode: mode},
+		Blind: TableBlindState{Level: lv, Ante: 0, Dealer: 0, SB: 10, BB: 20}, JoinPlayers: jps})
 	verifrt.Assert(err == nil && t != nil, "create succeeds")
 	if lv == -1 {
 		verifrt.Assert(t.State.Status == TableStateStatus_TablePausing, "created on a break: paused")
+	} else if mode == CompetitionMode_MTT && jn > 0 {
+		verifrt.Assert(t.State.Status == TableStateStatus_TableBalancing, "tournament table created with players off a break: balancing")
 	} else {
 		verifrt.Assert(t.State.Status == TableStateStatus_TableCreated, "created off a break: created")
 	}
